@@ -23,6 +23,7 @@ def registry():
         return _REG
     from .memsim import engine as M
     from .pipesim import checks as P
+    from .lifesim import engine as L
 
     reg = {}
 
@@ -317,5 +318,108 @@ def registry():
             required_probes=["run-time fault in five-stage mode"],
         )
     )
+
+    LIFE_REAL = [
+        "gui/webgui.py (get_riscv_simulation, get_toy_simulation, get_last_error fed through sys.last_value as pyodide does)",
+        "simulation/riscv_simulation.py, simulation/toy_simulation.py (load_program, step, run, every inspection function)",
+        "isa/riscv/riscv_parser.py, isa/toy/toy_parser.py, isa/parser.py and everything below them",
+        "uarch/performance_metrics.py reading the virtual clock (module attribute `time` replaced by the simulator's clock)",
+    ]
+    LIFE_STUB = [
+        "the browser: Python port of webgui/src/js/{base,riscv,toy}_simulation_store.js, editor_store.js, the button guards of "
+        "RiscvControlButtons.vue / ToyControlButtons.vue and the settings watchers (setTimeout/clearTimeout on a discrete-event "
+        "loop); JavaScript, Vue, CodeMirror and pyodide are not executed",
+        "the user: a seeded process choosing among the enabled actions",
+    ]
+    life_state = (
+        "UI mode: distinct (action performed, isRunning, error, isDone, hasStarted) tuples; API mode: distinct (call kind, "
+        "loaded, faulted, done, started) tuples"
+    )
+    life_time = "simulated_ms = virtual wall-clock milliseconds covered; events/calls = driver events or API calls issued; timers_fired = setTimeout callbacks run"
+    add(
+        CheckDef(
+            prop="C13",
+            title="lifecycle: done stable, run = step*, reload = fresh",
+            batches=[
+                L.ApiEpisodes("api", 3500, 60000),
+                L.UiEpisodes("ui", 3000, 50000),
+            ],
+            design_ref="DESIGN.md §6, §7 C13",
+            rule=(
+                "lifesim: episodes of 3-45 driver events (UI mode: typing, auto-parse debounce, step/run/pause/reset/double-step "
+                "buttons, uploads, settings changes incl. while running, clock skew/freeze; batch size 1..1000 so every run overshoots) "
+                "and of 3-25 raw API calls (loads incl. failing ones, step xN, run(), inspections, resets) on single-cycle, five-stage "
+                "and TOY simulations with random caches; after every event the observable snapshot of the used simulation must equal "
+                "that of a simulation created fresh at the last successful load and advanced by the effective steps only; done is "
+                "stable; step() returns not is_done(); empty programs are done; run() terminates when stepping does. Non-trivial iff "
+                ">=3 events were performed; distinct = distinct event-log digest."
+            ),
+            hang_is_violation=True,
+            components_real=LIFE_REAL,
+            components_stub=LIFE_STUB,
+            assumptions=[
+                "wall-clock fields are excluded from C13 comparisons (run() touches the timer, stepping does not)",
+                "nothing is asserted about an object after a run-time fault or after load_program on a started object",
+            ],
+            state_measure=life_state,
+            time_unit=life_time,
+            required_probes=["batch overshoot: step() calls after done", "run() issued", "simulation observed done", "program without instructions loaded"],
+        )
+    )
+    add(
+        CheckDef(
+            prop="C16",
+            title="inspection is pure",
+            batches=[
+                L.ApiEpisodes("api-inspect", 3500, 60000, flavour="inspect"),
+                L.UiEpisodes("ui", 2500, 40000),
+            ],
+            design_ref="DESIGN.md §6, §7 C16",
+            rule=(
+                "lifesim: the same episodes as C13; the used simulation receives syncAll after every handler (UI mode) or random "
+                "subsets/repetitions of the 13 RISC-V / 6 TOY inspection functions (API mode); a shadow receives the identical call "
+                "history minus every inspection call; after every event the snapshot of the used simulation must equal the snapshot of "
+                "a deep copy of the never-inspected shadow, wall-clock fields under the virtual clock included. Non-trivial iff >=3 "
+                "events were performed."
+            ),
+            components_real=LIFE_REAL,
+            components_stub=LIFE_STUB,
+            assumptions=["copy.deepcopy of the shadow is side-effect free", "an inspection function that raises is recorded, not flagged (C16 speaks about effects, not totality)"],
+            state_measure=life_state,
+            time_unit=life_time,
+            required_probes=["inspection calls"],
+        )
+    )
+    add(
+        CheckDef(
+            prop="C20",
+            title="TOY whole steps == half-cycle steps",
+            batches=[
+                L.ApiEpisodes("api-toy-halfsteps", 5000, 90000, isa="toy", flavour="halfsteps"),
+                L.UiEpisodes("ui-toy", 2000, 30000, isa="toy"),
+            ],
+            design_ref="DESIGN.md §6, §7 C20",
+            rule=(
+                "lifesim: TOY episodes issuing step / first_cycle_step / second_cycle_step / single_step in valid and invalid orders "
+                "(API mode) and the single-step / double-step buttons (UI mode); a shadow advanced by whole step() calls only must show "
+                "the same snapshot (registers, memory table markers, SVG values, counters) at every instruction boundary; every "
+                "out-of-order call must raise StepSequenceError and leave the snapshot unchanged; all calls are no-ops once done. "
+                "Non-trivial iff >=3 calls were performed."
+            ),
+            components_real=LIFE_REAL,
+            components_stub=LIFE_STUB,
+            assumptions=[],
+            state_measure=life_state,
+            time_unit=life_time,
+            required_probes=["instruction boundary compared with whole-step shadow", "invalid step in phase 2 rejected without effect",
+                             "invalid second_cycle_step in phase 1 rejected without effect", "invalid first_cycle_step in phase 2 rejected without effect"],
+        )
+    )
+    reg["C15"].batches += [L.UiEpisodes("ui-typing", 2500, 40000), L.ApiEpisodes("api-loads", 3000, 50000, flavour="loads")]
+    reg["C15"].hang_is_violation = True
+    reg["C15"].components_real = reg["C15"].components_real + LIFE_REAL
+    reg["C15"].components_stub = reg["C15"].components_stub + LIFE_STUB
+    reg["C11"].batches += [L.ApiEpisodes("api-reload", 2500, 40000, isa="riscv", flavour="reload")]
+    reg["C11"].components_real = reg["C11"].components_real + LIFE_REAL[:2]
     _REG = reg
     return reg
